@@ -9,7 +9,7 @@ import (
 // Properties decided (in part) by the file-protocol analysis.
 var fsRuleSets = map[string][]string{
 	"C04": {"LIST-WRITE", "LIST-HELD", "LIST-VALID", "LIST-CONTENT", "LIST-COMPLETE", "POST-COMMIT-OK", "FAIL-NO-EFFECT", "LOCK-OWN", "UPTODATE-MEANS-EQUAL"},
-	"C05": {"ORDER-TABLE-FIRST", "ORDER-DELETE-LAST", "LIST-CONTENT", "LIST-VALID", "GATE-IDX", "UPTODATE-MEANS-EQUAL", "NAME-FRESH"},
+	"C05": {"ORDER-TABLE-FIRST", "ORDER-DELETE-LAST", "LIST-CONTENT", "LIST-VALID", "GATE-IDX", "UPTODATE-MEANS-EQUAL", "NAME-FRESH", "HASH-TYPE"},
 	"C06": {"PRE-COMMIT-INVISIBLE", "ORDER-TABLE-FIRST", "ORDER-DELETE-LAST", "LIST-WRITE", "LIST-COMPLETE", "LIST-CONTENT"},
 	"C08": {"LOCK-EXCL", "LOCK-OWN"},
 	"C09": {"LIST-VALID", "UPTODATE-MEANS-EQUAL", "STALE-RELOAD", "STALE-NO-RESIDUE", "FAIL-NO-EFFECT", "GATE-IDX"},
@@ -22,7 +22,7 @@ var fsRuleSets = map[string][]string{
 // semantic terms, so moving code into helpers does not change the count.
 var fsFloors = map[string]map[string]int{
 	"C04": {"LIST-WRITE": 4, "LIST-HELD": 4, "LIST-VALID": 5, "LIST-CONTENT": 4, "LIST-COMPLETE": 4, "POST-COMMIT-OK": 1, "LOCK-OWN": 5, "UPTODATE-MEANS-EQUAL": 5},
-	"C05": {"ORDER-TABLE-FIRST": 4, "ORDER-DELETE-LAST": 5, "GATE-IDX": 2, "LIST-VALID": 5},
+	"C05": {"ORDER-TABLE-FIRST": 4, "ORDER-DELETE-LAST": 5, "GATE-IDX": 2, "LIST-VALID": 5, "NAME-FRESH": 4, "HASH-TYPE": 4},
 	"C06": {"ORDER-TABLE-FIRST": 4, "ORDER-DELETE-LAST": 5, "LIST-WRITE": 4, "LIST-COMPLETE": 4, "LIST-CONTENT": 4},
 	"C08": {"LOCK-EXCL": 5, "LOCK-OWN": 5},
 	"C09": {"LIST-VALID": 5, "UPTODATE-MEANS-EQUAL": 5, "STALE-RELOAD": 1, "STALE-NO-RESIDUE": 3, "GATE-IDX": 2},
